@@ -102,7 +102,9 @@ func Base(d string) gm.Schema {
 		s.Tables[0].Col("ufree2").Charset, s.Tables[0].Col("ufree2").Collation = "utf8mb4", "utf8mb4_general_ci" // other charset than the table
 		s.Tables[2].Col("pfree2").Charset, s.Tables[2].Col("pfree2").Collation = "latin1", "latin1_swedish_ci"   // other charset than the table
 		s.Tables[2].Col("title").Charset, s.Tables[2].Col("title").Collation = "utf8mb4", "utf8mb4_0900_ai_ci"   // same as the table
-		s.Tables[0].Indexes = append(s.Tables[0].Indexes, gm.Index{Name: "idx_users_bio", Parts: []gm.Part{{Col: "bio", Prefix: 10}}})
+		s.Tables[0].Indexes = append(s.Tables[0].Indexes, gm.Index{Name: "idx_users_bio", Parts: []gm.Part{{Col: "bio", Prefix: 10}}},
+			// two indexes over expressions (their generated names are functional_index and functional_index_2)
+			gm.Index{Name: "idx_users_fx1", Parts: []gm.Part{{Expr: "(`age` + 1)"}}}, gm.Index{Name: "idx_users_fx2", Parts: []gm.Part{{Expr: "(`age` + 2)"}}})
 		// the shape a MariaDB inspection yields for a JSON column: a check named after the column with a json_valid() expression.
 		// The differ hides the drop of such a check while the column stays (the database owns it) and reports it when the column goes too.
 		s.Tables[1].Cols = append(s.Tables[1].Cols, gm.Col{Name: "meta", Type: "json", Null: true})
@@ -161,6 +163,16 @@ func TwinCandidates(d string, s gm.Schema) []Twin {
 					plain = false
 				}
 				cols = append(cols, p.Col)
+			}
+			if d == "mysql" && len(ix.Parts) > 0 && ix.Parts[0].Col == "" {
+				// an unnamed index whose first part is an expression: functional_index, functional_index_2, ...
+				seen["\x00fx"]++
+				name := "functional_index"
+				if seen["\x00fx"] > 1 {
+					name = fmt.Sprintf("functional_index_%d", seen["\x00fx"])
+				}
+				out = append(out, Twin{Table: t.Name, Index: ix.Name, Gen: name, Op: "keep"})
+				continue
 			}
 			if !plain || len(cols) == 0 {
 				continue
